@@ -9,6 +9,7 @@ import (
 	"math"
 	"regexp"
 	"strings"
+	"unicode/utf8"
 
 	"github.com/issue9/mux/v9/types"
 )
@@ -192,9 +193,29 @@ func (seg *Segment) Similarity(s1 *Segment) int {
 		return -1
 	case s1.Type != seg.Type: // 完全不同的节点
 		return 0
+	case seg.Type == Regexp:
+		// 正则节点的后缀会被编译进表达式，不能从一个多字节字符的中间拆分，否则会得到无效的 UTF-8。
+		return runeBoundary(seg.Value, longestPrefix(s1.Value, seg.Value))
 	default:
 		return longestPrefix(s1.Value, seg.Value)
 	}
+}
+
+// 将 pos 回退到 s 中一个完整字符的起始位置
+//
+// 如果回退之后紧跟在参数的 } 之后，则按 [longestPrefix] 的规则返回参数的起始位置。
+func runeBoundary(s string, pos int) int {
+	if pos <= 0 || pos >= len(s) {
+		return pos
+	}
+
+	for pos > 0 && !utf8.RuneStart(s[pos]) {
+		pos--
+	}
+	if pos > 0 && s[pos-1] == endByte {
+		return strings.LastIndexByte(s[:pos], startByte)
+	}
+	return pos
 }
 
 // Split 从 pos 位置拆分为两个
